@@ -24,9 +24,9 @@ import (
 	"github.com/tigerwill90/fox"
 )
 
-const rule = "cases = (panic value in 11 kinds incl. wrapped http.ErrAbortHandler and net.OpError variants) x (response progress: nothing, informational header, final header, partial body, flushed) x (handler kind: route, inner route middleware, route reached by ignoring a trailing slash, no-route, no-method, options) " +
+const rule = "cases = (panic value in 13 kinds incl. wrapped http.ErrAbortHandler and net.OpError variants) x (response progress: nothing, informational header, final header, partial body, flushed) x (handler kind: route, inner route middleware, route reached by ignoring a trailing slash, no-route, no-method, options) " +
 	"x (credential header names in canonical, lower-case, upper-case and mixed capitalisation set directly in the header map, plus ordinary headers); the product is enumerated completely; " +
-	"plus a panic after every step of Updates and View functions; distinct by the tuple; non-trivial always"
+	"plus a panic after every step of Updates and View functions, and panics raised by middleware constructors during 8 write entry points; distinct by the tuple; non-trivial always"
 
 type capture struct {
 	mu   sync.Mutex
